@@ -6,6 +6,43 @@ import (
 	"go.uber.org/zap"
 )
 
+// VerifStartTemplate runs the REAL Plugin.Start as far as it gets without a broker: NewClient's Ping fails, the logger's
+// Fatal (which panics under the harness loggers) ends Start, and everything Start had set up before (configuration,
+// topic-id table, consumer set) is kept in the returned plugin. ok=false if Start did not end that way.
+func VerifStartTemplate(config *Config, params *pipeline.InputPluginParams) (p *Plugin, ok bool) {
+	p = &Plugin{}
+	defer func() {
+		if r := recover(); r != nil {
+			ok = p.idByTopic != nil && p.s != nil
+		}
+	}()
+	p.Start(config, params)
+	return p, false
+}
+
+// VerifInstantiate makes a plugin for one execution from a started template: same configuration and topic-id table
+// (as computed by the real Start), a fresh consumer set, the injected client, and the two calls Start makes after
+// NewClient (spread mode, no streams).
+func (t *Plugin) VerifInstantiate(controller pipeline.InputPluginController, client *kgo.Client, lg *zap.SugaredLogger) *Plugin {
+	p := &Plugin{}
+	p.controller = controller
+	p.logger = lg
+	p.config = t.config
+	p.idByTopic = t.idByTopic
+	p.client = client
+	p.s = &splitConsume{
+		consumers:              make(map[tp]*pconsumer),
+		bufferSize:             t.s.bufferSize,
+		maxConcurrentConsumers: t.s.maxConcurrentConsumers,
+		idByTopic:              t.s.idByTopic,
+		controller:             controller,
+		logger:                 lg.Desugar(),
+	}
+	p.controller.UseSpread()
+	p.controller.DisableStreams()
+	return p
+}
+
 // VerifNewPlugin builds the plugin the way Start does, minus the broker connection: Start's NewClient
 // pings a broker and Fatals without one, so the client (a real kgo.Client that is never connected)
 // is injected. Everything else mirrors Start: topic table, spread mode, disabled streams.
